@@ -216,7 +216,79 @@ def _ref_decrypt(keybytes, stored):
     return bytes(b ^ keybytes[i % 32] for i, b in enumerate(raw))
 
 
+def exhaustive(tier):
+    """Configuration A (key file kA) holds list items with secrets; configuration B of the same schema (key file kB) is
+    offered A's item objects in a whole-list assignment that B REJECTS (for every kind of reason). A still saves under kA."""
+    for cause in ("field-validator", "non-config-entry", "bad-leaf", "schema-validator", "required-missing"):
+        for form in ("list", "tuple"):
+            for fmt in ("json", "yaml", "pickle"):
+                for method in ("best", "xor"):
+                    for place in ("root", "nested"):
+                        yield {"mode": "rejected-cross-offer", "cause": cause, "form": form, "fmt": fmt, "method": method, "place": place}
+
+
+def _rejected_cross_offer_case(case, R):
+    cc = sandbox._state["cc"]
+    cause, form, fmt, method, place = case["cause"], case["form"], case["fmt"], case["method"], case["place"]
+    R.label("rejected-cross-offer", "cross-offer:" + cause)
+
+    def too_many(cfg, value):
+        if cause == "field-validator" and len(value) > 2:
+            raise ValueError("at most two servers")
+        return value
+    item = cc.Schema()
+    item.name = cc.StringField(required=cause == "required-missing")
+    item.port = cc.IntField(default=1)
+    item.secret = cc.SecureField(method=method)
+    if cause == "schema-validator":
+        @cc.validator(item)
+        def low_port(cfg):
+            if cfg.port is not None and cfg.port > 1000:
+                raise ValueError("port too high")
+    schema = cc.Schema()
+    holder = schema if place == "root" else schema.site.group
+    holder.servers = cc.ListField(item, validator=too_many)
+    schema.label = cc.StringField(default="l")
+    owner = (lambda c: c) if place == "root" else (lambda c: c.site.group)
+    with sandbox.CaseDir() as d:
+        ka, kb = os.path.join(d, "a.key"), os.path.join(d, "b.key")
+        a, b = schema(key_filename=ka), schema(key_filename=kb)
+        owner(a).servers = [{"name": "one", "secret": "plain-one-secret"}, {"name": "two", "secret": "plain-two-secret"}]
+        items = list(owner(a).servers)
+        extra = {"field-validator": {"name": "three"}, "non-config-entry": 5, "bad-leaf": {"name": "x", "port": "not a number"},
+                 "schema-validator": {"name": "y", "port": 5000}, "required-missing": {"port": 2}}[cause]
+        offered = items + [extra]
+        if form == "tuple":
+            offered = tuple(offered)
+        try:
+            owner(b).servers = offered
+            R.label("cross-offer:accepted")
+            return  # (what an accepted hand-over means for A is not this property's business)
+        except Exception:
+            pass
+        R.nontrivial = True
+        dest = os.path.join(d, "a." + fmt)
+        try:
+            a.save(dest, fmt)
+        except Exception as exc:
+            R.fail("reload", "cross-offer:save-raises", "A.save after B rejected A's items raised %r" % (exc,))
+            return
+        R.check(not os.path.exists(kb), "key-use", "cross-offer:foreign-key-created",
+                lambda: "B (key file b.key) rejected a list holding A's items (%s); saving A then created b.key" % cause)
+        try:
+            fresh = schema(key_filename=ka)
+            fresh.load(dest, fmt)
+            got = [s.secret for s in owner(fresh).servers]
+            err = None
+        except Exception as exc:
+            got, err = None, exc
+        R.check(got == ["plain-one-secret", "plain-two-secret"], "reload", "cross-offer:" + cause,
+                lambda: "B (another key file) rejected a %s holding A's items (%s); A's saved %s file then loads with A's key file as %r (%r)" % (form, cause, fmt, got, err))
+
+
 def run_case(case, R):
+    if case.get("mode") == "rejected-cross-offer":
+        return _rejected_cross_offer_case(case, R)
     cc = sandbox._state["cc"]
     fmt = case["fmt"]
     R.label("fmt:" + fmt)
